@@ -138,6 +138,9 @@ def havoc_value(E, name, v):
 
 def exec_for(E, s):
     it = E.eval(s.iter)
+    if isinstance(it, tuple) and it and it[0] == 'zip':
+        for k, comp in enumerate(it[1:]):
+            E.st.env['_zip%d' % k] = comp          # ghost names for loop invariants
     spec_iter = make_iter(E, it, s)
     if spec_iter.items is not None:
         try:
